@@ -388,9 +388,100 @@ namespace
         return out;
     }
 
+    // ---- gate program: a consumer that REQUIRES the reference-read input to be valid and has a second, directly wired active input ------
+    // (C03 through a reference: the consumer must not run on the other input's tick while the referenced target holds no value, and when
+    //  it runs the value it reads must be one a target really holds)
+    struct GateLog { long t; bool xvalid; long x; bool ymod; };
+    std::vector<GateLog> *g_gate = nullptr;
+    std::vector<std::string> g_yscript;
+    struct YWriter
+    {
+        static constexpr auto name = "c13_y_writer";
+        static constexpr bool schedule_on_start = true;
+        static void eval(NodeScheduler sched, DateTime now, Out<TS<Int>> out)
+        {
+            const long c = rel(now);
+            if (c < static_cast<long>(g_yscript.size()) && !g_yscript[static_cast<std::size_t>(c)].empty()) out.set(Int{700 + c});
+            if (c + 1 < static_cast<long>(g_yscript.size())) sched.schedule(MIN_TD);
+        }
+    };
+    struct GateConsumer
+    {
+        static constexpr auto name = "c13_gate_consumer";
+        static void eval(In<"x", TS<Int>> x, In<"y", TS<Int>, InputActivity::Active, InputValidity::Unchecked> y, DateTime now)
+        {
+            g_gate->push_back({rel(now), x.valid(), x.valid() ? static_cast<long>(x.value()) : -1, y.modified()});
+        }
+    };
+    // desc: yt|<sel>|<A>|<B>|<y ticks: "1" or "">
+    Outcome run_gate(const std::vector<std::string> &sel, const std::vector<std::string> &a, const std::vector<std::string> &b, const std::vector<std::string> &y)
+    {
+        Outcome out;
+        Run run;
+        run.script[0] = sel; run.script[1] = a; run.script[2] = b; run.cycles = static_cast<int>(sel.size());
+        std::vector<GateLog> log;
+        g = &run; g_gate = &log; g_yscript = y;
+        std::string exc;
+        try
+        {
+            Wiring w;
+            auto pa = wire<TargetWriter<ShapeTS>>(w, Int{1});
+            auto pb = wire<TargetWriter<ShapeTS>>(w, Int{2});
+            auto ref = wire<stdlib::if_then_else>(w, wire<SelWriter>(w), pa, pb).template as<TS<Int>>();
+            wire<GateConsumer>(w, ref, wire<YWriter>(w));
+            GraphBuilder gb = std::move(w).finish();
+            GraphExecutorBuilder eb;
+            eb.graph_builder(std::move(gb)).start_time(MIN_ST).end_time(MIN_ST + TimeDelta{run.cycles + 3});
+            auto ex = eb.make_executor();
+            ex.view().run();
+        }
+        catch (const std::exception &e) { exc = e.what(); }
+        g = nullptr; g_gate = nullptr;
+        if (!exc.empty()) { out.violation = "run threw: " + exc; return out; }
+        bool valid[2] = {false, false}; long val[2] = {0, 0};
+        int selected = -1, effective = -1;
+        std::map<long, const GateLog *> at;
+        for (auto &e : log) at[e.t] = &e;
+        std::ostringstream sig;
+        for (long c = 0; c < run.cycles; ++c)
+        {
+            bool tick[2] = {false, false};
+            for (int q = 0; q < 2; ++q) { const std::string &op = (q == 0 ? a : b)[static_cast<std::size_t>(c)]; if (!op.empty()) { val[q] = std::stol(op.substr(1)); valid[q] = true; tick[q] = true; } }
+            int new_sel = selected;
+            if (!sel[static_cast<std::size_t>(c)].empty()) new_sel = sel[static_cast<std::size_t>(c)] == "v1" ? 0 : 1;
+            const bool retarget = new_sel != selected;
+            selected = new_sel;
+            const bool yt = !y[static_cast<std::size_t>(c)].empty();
+            const GateLog *e = at.count(c) ? at[c] : nullptr;
+            sig << (e ? std::to_string(e->x) : std::string{"."}) << ",";
+            ++out.ticks;
+            if (out.violation) continue;
+            const std::string where = "cycle " + std::to_string(c) + ": ";
+            if (selected < 0) { if (e) out.violation = where + "the consumer ran although its required input designates nothing"; continue; }
+            if (valid[selected])
+            {
+                effective = selected;
+                const bool must = retarget || tick[selected] || yt;
+                if (must && !e) out.violation = where + "the consumer was not evaluated although " + (yt ? "its directly wired input ticked" : "the referenced target ticked / was re-pointed") + " and the referenced target holds a value";
+                else if (e && (!e->xvalid || e->x != val[selected])) out.violation = where + "the consumer read " + (e->xvalid ? std::to_string(e->x) : std::string{"<invalid>"}) + " through the reference but the selected target holds " + std::to_string(val[selected]);
+            }
+            else
+            {
+                // the designated target holds no value: the required input is not valid, so the consumer must not run - unless the runtime still
+                // follows the previous valid target (then it must read THAT target's value)
+                if (e && !(effective >= 0 && e->xvalid && e->x == val[effective]))
+                    out.violation = where + "the consumer ran (read " + (e->xvalid ? std::to_string(e->x) : std::string{"<invalid>"}) + ") although the referenced target holds no value" + (effective >= 0 ? " and the value is not the previous target's (" + std::to_string(val[effective]) + ")" : std::string{});
+            }
+        }
+        out.sig = "yt#" + sig.str();
+        out.nontrivial = true;
+        return out;
+    }
+
     Outcome run_desc(const std::string &desc)
     {
         auto parts = split(desc, '|');
+        if (parts.at(0) == "yt") return run_gate(split(parts.at(1), ';'), split(parts.at(2), ';'), split(parts.at(3), ';'), split(parts.at(4), ';'));
         const char program = parts.at(0)[0], shape = parts.at(0)[1];
         auto sel = split(parts.at(1), ';'), a = split(parts.at(2), ';'), b = split(parts.at(3), ';');
         if (shape == 't') return run_shape<ShapeTS>(program, sel, a, b);
@@ -428,6 +519,32 @@ void verif_enumerate(verif::Ctx &ctx)
         {"i", 's', {"", "+1", "-1"}, {"", "+1", "+2"}, th ? 5 : 4},
         {"i", 'd', {"", "s1=5", "e1"}, {"", "s1=6", "s2=7"}, th ? 5 : 4},
     };
+    {
+        // gate program: selector x target A x target B x ticks of the directly wired second input, T=4
+        std::vector<std::string> sels, as, bs, ys;
+        const int T = 4;
+        product({"", "v1", "v0"}, T, sels);
+        product({"", "v5"}, T, as);
+        product({"", "v8"}, T, bs);
+        product({"", "1"}, T, ys);
+        for (auto &s2 : sels) for (auto &a2 : as) for (auto &b2 : bs) for (auto &y2 : ys)
+        {
+            if (!ctx.next_is_mine()) continue;
+            const std::string desc = "yt|" + s2 + "|" + a2 + "|" + b2 + "|" + y2;
+            ++ctx.evaluations; ++ctx.traces;
+            Outcome o = run_desc(desc);
+            ctx.transitions += o.ticks;
+            ctx.state(o.sig);
+            ctx.nontriv(desc);
+            ctx.count("cases_yt");
+            if (o.violation)
+            {
+                Outcome o2 = run_desc(desc);
+                if (!o2.violation || *o2.violation != *o.violation) throw verif::HarnessError("case not reproducible: " + desc);
+                ctx.violation(desc, *o.violation, "yt: " + o.violation->substr(o.violation->find(':') + 2, 50));
+            }
+        }
+    }
     for (auto &sp : spaces)
     {
         std::vector<std::string> sels, as, bs;
